@@ -46,6 +46,10 @@ func oracleC15(ctx *harness.Ctx, cs *harness.Case) (ds []harness.Discrepancy) {
 	add := func(sig, msg string) {
 		ds = append(ds, harness.Discrepancy{Sig: sig, Msg: msg + " fn=" + cs.Entry + " input=" + q(trunc(s, 80))})
 	}
+	if strings.HasPrefix(cs.Entry, "survive:") {
+		c15Survive(cs, add)
+		return
+	}
 	var out string
 	o := guarded(func() ([]astNode, error) {
 		switch cs.Entry {
@@ -197,6 +201,31 @@ func runC15(ctx *harness.Ctx) {
 			}
 		}
 		ctx.Exhaustive(fmt.Sprintf("every reserved keyword of the documentation's table (%d) in 4 letter-case variants and 5 near-miss spellings x 3 functions", len(words)), ctx.ViolationCount() == 0)
+	})
+	// values held by a tree survive SQL(): drawn values in ~110 syntactic places, and generator sentences with composed values
+	ctx.Rapid("survive-sql", ctx.Pick(12000, 250000), func(t *rapid.T) {
+		entry, src, tmpl := drawSurviveInput(t)
+		cs := &harness.Case{Leg: "survive-sql", Entry: "survive:" + entry, Input: src}
+		ctx.Eval(1)
+		o := entryByName[entry].Guarded(src)
+		if o.Panicked || o.Err != nil {
+			ctx.Class("survive: template rejected: " + tmpl)
+			return
+		}
+		ctx.Class("survive: accepted")
+		ctx.NonTrivial(harness.Hash("survive", entry, src))
+		ctx.Sample(map[string]any{"leg": "survive-sql", "entry": entry, "input": q(trunc(src, 200))})
+		ctx.Check(t, cs, oracleC15(ctx, cs))
+	})
+	ctx.Rapid("survive-sql-generated", ctx.Pick(3000, 60000), func(t *rapid.T) {
+		kind := rapid.SampledFrom([]string{"expr", "expr", "query", "dml", "type"}).Draw(t, "kind")
+		c := drawGen(t, kind, rapid.SampledFrom([]int{1, 2, 2, 3}).Draw(t, "depth"))
+		es := entriesForKind(c.S.Kind)
+		e := es[0]
+		cs := &harness.Case{Leg: "survive-sql-generated", Entry: "survive:" + e.Name, Input: c.Text}
+		ctx.Eval(1)
+		ctx.NonTrivial(harness.Hash("survive", e.Name, c.Text))
+		ctx.Check(t, cs, oracleC15(ctx, cs))
 	})
 	parts := []string{"'", "\"", "`", "\\", "\n", "\r", "\t", "\x00", "\x01", "\x7f", "\x80", "\xff", "\xc3", "\xc3\xa9", "é", "日", "\u0085", "\u00a0", " ", "\ufeff", "\U0001F600",
 		"a", "B", "_", "1", " ", "select", "NULL", "x", "''", "\"\"", "'''", "\"\"\"", "\\x", "\\n", "?", ";", "--", "/*", "\xed\xa0\x80", "\xf4\x90\x80\x80", "\U0010FFFF", "\u200b"}
